@@ -33,7 +33,8 @@ _schema_cache = {}
 
 def make_schema(rng, handlers):
     sd = cfggen.gen_schema(rng, handlers=handlers)
-    real = F.load_real(sd)
+    # every fifth schema is delivered as a chain of three documents (schema-level extends): same schema object expected
+    real = F.load_real_chain(sd, rng) if rng.random() < 0.2 else F.load_real(sd)
     elab = F.elaborate(sd)
     return sd, real, elab, cfgrun.handler_names(elab)
 
